@@ -71,18 +71,19 @@ pub fn check_same_hash<A: std::hash::Hash + ?Sized, B: std::hash::Hash + ?Sized>
 
 /// Every way of consuming an iterator must agree with stepping it by `next()`: the i-th item is what
 /// `nth(i)` returns, `skip`, `step_by`, `count`, `last` and `size_hint` are consistent with the
-/// expected item list. (They are default methods unless an iterator overrides them.)
-pub fn check_iter_laws<T, I>(mk: &dyn Fn() -> I, exp: &[T], site: &str, extra: &[u16]) -> R<()>
+/// expected item list. (They are default methods unless an iterator overrides them.) The methods
+/// are called on the library's iterator itself (`mk()`); `conv` only converts the yielded items.
+pub fn check_iter_laws<T, I>(mk: &dyn Fn() -> I, conv: &dyn Fn(I::Item) -> T, exp: &[T], site: &str, extra: &[u16]) -> R<()>
 where
     T: PartialEq + std::fmt::Debug + Clone,
-    I: Iterator<Item = T>,
+    I: Iterator,
 {
     let n = exp.len();
     let (lo, hi) = no_panic(&format!("{site}/size_hint_panic"), "size_hint", || mk().size_hint())?;
     ensure!(lo <= n && hi.map_or(true, |h| h >= n), format!("{site}/size_hint"), "size_hint() = ({lo}, {hi:?}) but the iterator has {n} items");
     let c = no_panic(&format!("{site}/count_panic"), "count", || mk().count())?;
     ensure_eq!(c, n, format!("{site}/count"), "count()");
-    let l = no_panic(&format!("{site}/last_panic"), "last", || mk().last())?;
+    let l = no_panic(&format!("{site}/last_panic"), "last", || mk().last().map(conv))?;
     ensure_eq!(l.as_ref(), exp.last(), format!("{site}/last"), "last()");
     let mut js: Vec<usize> = vec![0, 1, 2, n / 2, n.saturating_sub(2), n.saturating_sub(1), n, n + 1];
     for e in extra {
@@ -93,15 +94,15 @@ where
     for &j in &js {
         let (got, next, hint) = no_panic(&format!("{site}/nth_panic"), &format!("nth({j}) on {n} items"), || {
             let mut it = mk();
-            let g = it.nth(j);
+            let g = it.nth(j).map(conv);
             let h = it.size_hint();
-            (g, it.next(), h)
+            (g, it.next().map(conv), h)
         })?;
         ensure_eq!(got.as_ref(), exp.get(j), format!("{site}/nth"), "nth({j}) of an iterator with {n} items");
         ensure_eq!(next.as_ref(), exp.get(j + 1), format!("{site}/nth_then_next"), "next() after nth({j}) of an iterator with {n} items");
         let rest = n.saturating_sub(j + 1);
         ensure!(hint.0 <= rest && hint.1.map_or(true, |h| h >= rest), format!("{site}/size_hint_after_nth"), "size_hint() after nth({j}) = {hint:?} but {rest} items remain");
-        let sk: Vec<T> = no_panic(&format!("{site}/skip_panic"), &format!("skip({j})"), || mk().skip(j).take(n + 2).collect())?;
+        let sk: Vec<T> = no_panic(&format!("{site}/skip_panic"), &format!("skip({j})"), || mk().skip(j).take(n + 2).map(conv).collect())?;
         ensure_eq!(&sk[..], &exp[j.min(n)..], format!("{site}/skip"), "skip({j}) of an iterator with {n} items");
     }
     let mut steps: Vec<usize> = vec![1, 2, 3, 4, 7, n.saturating_sub(1).max(1), n.max(1), n + 1];
@@ -111,9 +112,14 @@ where
     steps.sort();
     steps.dedup();
     for &s in &steps {
-        let st: Vec<T> = no_panic(&format!("{site}/step_by_panic"), &format!("step_by({s})"), || mk().step_by(s).take(n + 2).collect())?;
+        let st: Vec<T> = no_panic(&format!("{site}/step_by_panic"), &format!("step_by({s})"), || mk().step_by(s).take(n + 2).map(conv).collect())?;
         let want: Vec<T> = exp.iter().step_by(s).cloned().collect();
         ensure_eq!(st, want, format!("{site}/step_by"), "step_by({s}) of an iterator with {n} items");
+        // skip then step: the usual "every s-th item starting at offset" idiom
+        let off = s.min(2);
+        let st2: Vec<T> = no_panic(&format!("{site}/step_by_panic"), &format!("skip({off}).step_by({s})"), || mk().skip(off).step_by(s).take(n + 2).map(conv).collect())?;
+        let want2: Vec<T> = exp.iter().skip(off).step_by(s).cloned().collect();
+        ensure_eq!(st2, want2, format!("{site}/skip_step_by"), "skip({off}).step_by({s}) of an iterator with {n} items");
     }
     // repeated nth(1): every other item, until exhausted
     let hops: Vec<T> = no_panic(&format!("{site}/nth_panic"), "repeated nth(1)", || {
@@ -121,7 +127,7 @@ where
         let mut v = vec![];
         for _ in 0..n + 2 {
             match it.nth(1) {
-                Some(x) => v.push(x),
+                Some(x) => v.push(conv(x)),
                 None => break,
             }
         }
@@ -129,5 +135,8 @@ where
     })?;
     let want: Vec<T> = exp.iter().skip(1).step_by(2).cloned().collect();
     ensure_eq!(hops, want, format!("{site}/nth_repeated"), "repeated nth(1) over {n} items");
+    // zip / enumerate / fold go through next() or fold: the items and their order once more
+    let folded: Vec<T> = no_panic(&format!("{site}/fold_panic"), "fold", || mk().fold(vec![], |mut acc, x| { if acc.len() < n + 2 { acc.push(conv(x)); } acc }))?;
+    ensure_eq!(&folded[..], exp, format!("{site}/fold"), "fold() over {n} items");
     Ok(())
 }
